@@ -499,7 +499,7 @@ def _run_odometer(ctx, spec, rng):
     seen = [tuple(int(v) for v in cur)]
     ok = True
     for _ in range(len(want)):
-        nxt = ctx.call(update_odometer, cur, np.array(lim) if spec[1] % 3 else list(lim))
+        nxt = ctx.call(update_odometer, cur, np.array(lim) if spec[1] % 3 else list(lim), freeze=False)  # documented to advance the index array it is given
         if nxt is FAILED:
             return
         cur = nxt
